@@ -2879,8 +2879,9 @@ class DRoc(Output):
             x = np.nan * np.zeros([len(f_intervals), 1], 'float')
             for i in range(len(f_intervals)):
                 f_interval = f_intervals[i]
-                x[i] = verif.metric.Fa().compute_from_obs_fcst(obs, fcst, interval, f_interval)
-                y[i] = verif.metric.Hit().compute_from_obs_fcst(obs, fcst, interval, f_interval)
+                # Without any valid data the rates are masked, which must not be stored as 0
+                x[i] = np.ma.filled(verif.metric.Fa().compute_from_obs_fcst(obs, fcst, interval, f_interval), np.nan)
+                y[i] = np.ma.filled(verif.metric.Hit().compute_from_obs_fcst(obs, fcst, interval, f_interval), np.nan)
 
             # Remove end-points when using log axes
             if self.xlog or self.ylog:
